@@ -423,7 +423,7 @@ func c05RunCase(t *rapid.T, rec *vfstat.Recorder, cs *c05Case) {
 			}
 		}
 	}
-	for c, name := range map[byte]string{'e': "value:empty", '0': "value:nil", 'n': "value:nul-bytes", 'L': "value:large"} {
+	for c, name := range map[byte]string{'e': "value:empty", '0': "value:nil", 'n': "value:nul-bytes", 'L': "value:large", 'd': "value:shared-by-writers"} {
 		if seenClass[c] {
 			classes = append(classes, name)
 		}
